@@ -1763,7 +1763,11 @@ func (s *BgpServer) handleFSMMessage(peer *peer, e *fsmMsg) {
 							err := s.mgmtOperation(func() error {
 								peer.fsm.logger.Info("LLGR restart timer expired", slog.String("Family", family.String()), slog.Any("Duration", t))
 
-								s.dropAdjRIBIn(peer, []bgp.Family{family})
+								// only what is still stale: the peer may be back and
+								// have re-announced routes, which are fresh
+								dropped := peer.adjRibIn.DropStale([]bgp.Family{family})
+								s.notifyAdjInWithdrawWatcher(peer, dropped)
+								s.propagateUpdate(peer, dropped)
 
 								// when all llgr restart timer expired, stop PeerRestarting
 								if peer.llgrRestartTimerExpired(family) {
